@@ -26,7 +26,7 @@ from . import asm_x86, oracle, repo
 LEVEL = "other"
 MANIFEST = {
     "text": "decides D1 (all checked-in .S files regenerate byte-identically from tools/), D2 (non-executable "
-            ".note.GNU-stack on every assembly object), D3 (x86-64: stack balance, callee-saved registers, memory "
+            ".note.GNU-stack on every assembly object under the flags of a gcc and of a clang configuration), D3 (x86-64: stack balance, callee-saved registers, memory "
             "footprint, every path, every share configuration), D4 (x86-64 jump table and round constants), D4i "
             "(i386: every first_round value reaches the block of that round, blocks in order with the "
             "specification's constants) and D5 (x86-64 ascon_permute: every round block is the specification's "
